@@ -268,21 +268,26 @@ func (c *Ctx) learn(t *Term, v bool) {
 	}
 }
 
-func (c *Ctx) lookupKnown(t *Term) (bool, bool) {
+func (c *Ctx) lookupKnown(t *Term) (bool, bool) { return c.lookupKnownD(t, 3) }
+
+func (c *Ctx) lookupKnownD(t *Term, d int) (bool, bool) {
 	if t.isC {
 		return t.cval == 1, true
 	}
 	if t.op == "not" {
-		v, ok := c.lookupKnown(t.args[0])
+		v, ok := c.lookupKnownD(t.args[0], d)
 		return !v, ok
 	}
 	v, ok := c.known[t]
 	if ok {
 		return v, true
 	}
+	if d == 0 {
+		return false, false
+	}
 	if t.op == "and" {
-		a, oka := c.lookupKnown(t.args[0])
-		b, okb := c.lookupKnown(t.args[1])
+		a, oka := c.lookupKnownD(t.args[0], d-1)
+		b, okb := c.lookupKnownD(t.args[1], d-1)
 		if oka && okb {
 			return a && b, true
 		}
@@ -291,8 +296,8 @@ func (c *Ctx) lookupKnown(t *Term) (bool, bool) {
 		}
 	}
 	if t.op == "or" {
-		a, oka := c.lookupKnown(t.args[0])
-		b, okb := c.lookupKnown(t.args[1])
+		a, oka := c.lookupKnownD(t.args[0], d-1)
+		b, okb := c.lookupKnownD(t.args[1], d-1)
 		if oka && okb {
 			return a || b, true
 		}
@@ -1005,8 +1010,10 @@ func (c *Ctx) resetRun(prefix []Decision) {
 	c.allocLimit = nil
 }
 
-func (c *Ctx) rollback() {
-	for i := len(c.undo) - 1; i >= 0; i-- {
+func (c *Ctx) rollback() { c.rollbackTo(0) }
+
+func (c *Ctx) rollbackTo(mark int) {
+	for i := len(c.undo) - 1; i >= mark; i-- {
 		u := c.undo[i]
 		switch {
 		case u.p != nil:
@@ -1029,7 +1036,7 @@ func (c *Ctx) rollback() {
 			u.me.v = u.old
 		}
 	}
-	c.undo = c.undo[:0]
+	c.undo = c.undo[:mark]
 }
 
 // runOne executes the entry once under the given prefix.
